@@ -609,6 +609,8 @@ def post_c09(out, plan, vlib):
         if files:
             summary[name] = {"config": st["config"], "args": {k: v for k, v in st.get("args", {}).items() if k in ("force", "stride")},
                              "transcript_entries": entries, "vs_reference": "reference" if name == ref_stage else status}
+        elif not any(s["name"] == name for s in out.stages):
+            summary[name] = {"config": st["config"], "vs_reference": "stage not run"}
         else:
             summary[name] = {"config": st["config"], "vs_reference": "no transcript written"}
             if not any(s["name"] == name and s["status"] in ("build-failed", "prepare-failed") for s in out.stages):
